@@ -27,7 +27,7 @@ ID = 'C20'
 FUNCTIONS = ['geophires_x.GEOPHIRESv3:main', 'geophires_x.Outputs:Outputs.read_parameters', 'geophires_x_client:GeophiresXClient.get_geophires_result',
              'geophires_x.Model:Model.__init__']
 UNIT_TIMEOUT = {'quick': 280, 'thorough': 1200}
-SHAPES = ['none', 'rel-file', 'rel-file-noext', 'rel-dir-file', 'rel-dir-file-noext', 'abs-dir-file', 'rel-dotdir-file']
+SHAPES = ['none', 'rel-file', 'rel-file-noext', 'rel-dir-file', 'rel-dir-file-noext', 'abs-dir-file', 'rel-dotdir-file', 'rel-dirdot-file-noext', 'abs-dirdot-file-noext', 'rel-dirdot-file']
 META = {
     'explanation': 'Names of the output directory, output file stem and extension are three symbolic strings of 1-2 characters; z3 '
                    'enumerates every feasible equality / substring pattern between them (AllSAT) and each pattern is instantiated by '
@@ -165,17 +165,23 @@ def scenario(inst, shape, input_abs, failing, family='plain'):
         os.makedirs(work, exist_ok=True)
         if 'dotdir' in shape:
             os.makedirs(os.path.join(work, '.' + A), exist_ok=True)
+        elif 'dirdot' in shape and not shape.startswith('abs'):
+            os.makedirs(os.path.join(work, f'{A}.{C}'), exist_ok=True)
         elif 'dir' in shape and not shape.startswith('abs'):
             os.makedirs(os.path.join(work, A), exist_ok=True)
         absdir = os.path.join(root, 'abs', A)
         os.makedirs(absdir, exist_ok=True)
+        absdirdot = os.path.join(root, 'abs', f'{A}.{C}')
+        os.makedirs(absdirdot, exist_ok=True)
         inp_rel = 'in_' + B + '.txt'
         with open(os.path.join(work, inp_rel), 'w') as f:
             f.write((BAD if failing else GOOD) + FAMILIES[family])
         inp_arg = os.path.join(work, inp_rel) if input_abs else inp_rel
         name, name_noext = f'{B}.{C}', B
         out_arg = {'none': None, 'rel-file': name, 'rel-file-noext': name_noext, 'rel-dir-file': f'{A}/{name}', 'rel-dir-file-noext': f'{A}/{name_noext}',
-                   'abs-dir-file': os.path.join(absdir, name), 'rel-dotdir-file': f'.{A}/{name}'}[shape]
+                   'abs-dir-file': os.path.join(absdir, name), 'rel-dotdir-file': f'.{A}/{name}',
+                   'rel-dirdot-file-noext': f'{A}.{C}/{name_noext}', 'abs-dirdot-file-noext': os.path.join(absdirdot, name_noext),
+                   'rel-dirdot-file': f'{A}.{C}/{name}'}[shape]
         expected_report = os.path.join(work, 'HDR.out') if out_arg is None else (out_arg if os.path.isabs(out_arg) else os.path.join(work, out_arg))
         er = Path(expected_report)
         expected_json = str(er.with_name(er.stem + '.json')) if out_arg is not None else os.path.join(work, 'HDR.json')
@@ -204,6 +210,26 @@ def scenario(inst, shape, input_abs, failing, family='plain'):
                         {'expected': rel(expected_json), 'created': sorted(created)}))
             res.append(('CLI: nothing else is created', created <= {rel(expected_report), rel(expected_json)},
                         {'unexpected': sorted(created - {rel(expected_report), rel(expected_json)})}))
+        if failing and not input_abs and shape == 'none':
+            # the client with the same failing input: the failure must leave the caller's working directory and argument vector as they were
+            from geophires_x_client import GeophiresXClient, GeophiresInputParameters
+            cwd0, argv0 = os.getcwd(), sys.argv
+            os.chdir(work)
+            marker = ['caller-argv', 'x']
+            sys.argv = marker
+            raised = False
+            try:
+                with contextlib.redirect_stdout(io.StringIO()), contextlib.redirect_stderr(io.StringIO()):
+                    try:
+                        GeophiresXClient(enable_caching=False).get_geophires_result(GeophiresInputParameters(from_file_path=Path(work, inp_rel)))
+                    except BaseException:
+                        raised = True
+                res.append(('client: a failing simulation raises', raised, {}))
+                res.append(('client: a failing request leaves the caller\'s working directory as it was', os.getcwd() == work, {'cwd after': os.getcwd()}))
+                res.append(('client: a failing request leaves the caller\'s argument vector as it was', sys.argv is marker and sys.argv == ['caller-argv', 'x'], {'argv after': list(sys.argv)[:3]}))
+            finally:
+                os.chdir(cwd0)
+                sys.argv = argv0
         res.append(('CLI: the caller\'s working directory is restored', cwd_ok, {}))
         res.append(('CLI: the argument vector object is restored', argv_ok, {}))
         if not failing and os.path.isfile(expected_report):
